@@ -23,6 +23,21 @@ type logT struct {
 	evs   []string
 	t0    time.Time // set (before Start) when the run keeps a timed log
 	timed []string  // [code, k, ns since t0] of schedule steps (7, 8) and function starts (1)
+	ns    int       // number of schedules (0: the schedule index is not tracked)
+	cur   atomic.Int64
+}
+
+// step tracks the index of the active schedule from the goroutine's schedule steps, so that a
+// function start can be attributed when two schedules have the same frequency
+func (l *logT) step(first bool) {
+	if l.ns == 0 {
+		return
+	}
+	if first {
+		l.cur.Store(0)
+	} else if c := l.cur.Load(); int(c)+1 < l.ns {
+		l.cur.Store(c + 1)
+	}
 }
 
 func (l *logT) addT(code, k int) {
@@ -65,6 +80,7 @@ func installHooks(lg *logT, firsts *atomic.Int64) {
 		switch {
 		case strings.HasSuffix(p, ".startFirst"):
 			hooksSeen.Add(1)
+			lg.step(true)
 			lg.addT(7, 0)
 			lg.add("[7]")
 			if firsts != nil {
@@ -72,6 +88,7 @@ func installHooks(lg *logT, firsts *atomic.Int64) {
 			}
 		case strings.HasSuffix(p, ".startNext"):
 			hooksSeen.Add(1)
+			lg.step(false)
 			lg.addT(8, 0)
 			lg.add("[8]")
 		}
@@ -166,6 +183,10 @@ func one(o *kit.Out, r *kit.Rand) {
 	// the second schedule far behind the first: a Restart then arrives while the runner is on
 	// its first schedule, and must push the second schedule's start out again
 	farSecond := r.Chance(35)
+	sameAsBefore := r.Chance(30)
+	if sameAsBefore {
+		ns = 3
+	}
 	for k := 0; k < ns; k++ {
 		f := time.Duration(2+3*k+r.Intn(2)) * time.Millisecond // distinct per schedule
 		if slowLater && k > 0 {
@@ -178,10 +199,16 @@ func one(o *kit.Out, r *kit.Rand) {
 		if k == 0 {
 			d = time.Duration(r.Range(0, 3)) * time.Millisecond
 		}
+		if sameAsBefore && k > 0 && k == ns-2 {
+			f = sched[k-1].Frequency // two neighbouring schedules of the same frequency, a different one behind them
+		}
 		sched = append(sched, raterun.Schedule{StartDelay: d, Frequency: f})
-		freqIdx[f] = k
+		if _, dup := freqIdx[f]; !dup {
+			freqIdx[f] = k
+		}
 	}
-	lg := &logT{}
+	lg := &logT{ns: ns}
+	lg.cur.Store(-1)
 	installHooks(lg, nil)
 	defer hook.Set(nil)
 	fnDur := time.Duration(r.Range(0, 12)) * time.Millisecond
@@ -202,6 +229,9 @@ func one(o *kit.Out, r *kit.Rand) {
 		k, ok := freqIdx[f]
 		if !ok {
 			k = 99
+		}
+		if c := int(lg.cur.Load()); c >= 0 && c < ns && sched[c].Frequency == f {
+			k = c // the active schedule has this frequency (it may share it with its neighbour)
 		}
 		at := time.Since(t0)
 		lg.addT(1, k)
